@@ -1,8 +1,397 @@
 import GB.Base.Proto
+import GB.C15.Spec
+/-
+  C15 driver: judges one case line of the `c15` area.
+
+  hist …  => <event log of the real Resolver>
+      The log is replayed through the model: the wake-up LTS (`step`) must accept every observed
+      event with the scripted harness actions interleaved (trace validation), the poll bookkeeping
+      model (`pollStep`) must predict the streams opened and the callbacks of every poll, and the
+      specification (`specPoll`, contracts compared as sets) must be met.
+  hsvc / hfile … => eq|ne   hash equality of the real hash functions vs the model's pre-images.
+-/
 namespace GB.C15
 open GB GB.Proto
 
-/-- stub: replaced when the C15 slice is built -/
-def handle : Handler := fun _ _ => "BAD c15 unimplemented"
+/-! ### parsing -/
+
+def unhexPlain (s : String) : Option Bytes := hexDecodeChars s.toList
+
+def parseHexList (s : String) : Option (List Bytes) :=
+  if s = "" ∨ s = "-" then some [] else (s.splitOn ",").mapM unhexPlain
+
+def parseFile (s : String) : Option File :=
+  match s.splitOn ":" with
+  | [n, b] => match unhexPlain n, unhexPlain b with
+    | some n, some b => some { name := n, proto := b }
+    | _, _ => none
+  | _ => none
+
+def parseFileList (s : String) : Option (List File) :=
+  if s = "" ∨ s = "-" then some [] else (s.splitOn ",").mapM parseFile
+
+structure CEntry where
+  valid : Bool
+  sig : String
+  c : ServerContract
+
+def parseContract (s : String) : Option CEntry :=
+  match s.splitOn "/" with
+  | [v, sig, svcs, files] =>
+    match parseHexList svcs, parseFileList files with
+    | some l, some fs => some { valid := v == "1", sig := sig, c := { listed := l, files := fs } }
+    | _, _ => none
+  | _ => none
+
+structure AttTok where
+  mode : Char
+  cid : Nat
+
+def parseAtt (s : String) : Option AttTok :=
+  match s.toList with
+  | m :: rest =>
+    let digits := rest.takeWhile Char.isDigit
+    if digits.isEmpty then none else
+    match (String.ofList digits).toNat? with
+    | some n => some { mode := m, cid := n }
+    | none => none
+  | [] => none
+
+structure Plan where
+  a0 : AttTok
+  a1 : AttTok
+  n : List Nat
+  closeAt : Char
+  /-- points at which a ResolveNow is started and held after its pointer load -/
+  holdAt : List Char := []
+  /-- points at which all held calls are released -/
+  relAt : List Char := []
+
+def parseSplits (s : String) : Option (List Char × List Char) :=
+  (s.splitOn ",").foldlM (fun (acc : List Char × List Char) t =>
+    match t.toList with
+    | ['h', p] => some (acc.1 ++ [p], acc.2)
+    | ['r', p] => some (acc.1, acc.2 ++ [p])
+    | _ => none) ([], [])
+
+def parsePlan4 (x y ns cl : String) : Option Plan :=
+  match parseAtt x, parseAtt y, (ns.splitOn ".").mapM String.toNat?, cl.toList with
+  | some a, some b, some n, [c] => if n.length = 5 then some { a0 := a, a1 := b, n := n, closeAt := c } else none
+  | _, _, _, _ => none
+
+def parsePlan (s : String) : Option Plan :=
+  match s.splitOn "/" with
+  | [x, y, ns, cl] => parsePlan4 x y ns cl
+  | [x, y, ns, cl, sp] =>
+    match parsePlan4 x y ns cl, parseSplits sp with
+    | some p, some (h, r) => some { p with holdAt := h, relAt := r }
+    | _, _ => none
+  | _ => none
+
+/-! ### model side of one poll -/
+
+def toAttempt (os : Bool) (tab : List CEntry) (a : AttTok) : Option (Attempt String) :=
+  match a.mode with
+  | 'S' => match tab[a.cid]? with
+    | some e => some (.fetched (observe os e.c) (if e.valid then some e.sig else none))
+    | none => none
+  | 'U' => some .unimplemented
+  | 'A' => some (.fail .unavailable)
+  | 'I' => some (.fail .internal)
+  | 'T' => some (.fail .timeout)
+  | 'E' => some (.fail .eof)
+  | 'O' => some (.fail .other)
+  | 'G' => some (.fail .other)
+  | _ => none
+
+def clsTok : ErrClass → String
+  | .unimplemented => "U" | .unavailable => "A" | .internal => "I" | .timeout => "T" | .eof => "E" | .other => "O"
+
+def cbTok : Callback String → String
+  | .update d => "u" ++ d
+  | .reportError c => "e" ++ clsTok c
+
+def verTok : Version → String
+  | .v1 => "a0" | .v1alpha => "a1"
+
+def isUpdateTok (t : String) : Bool := t.startsWith "u"
+
+/-! ### replay -/
+
+inductive Phase where
+  | idle | polling | atSelect | closedDone
+deriving DecidableEq
+
+structure V where
+  w : W
+  r : RState Bytes
+  rNext : RState Bytes
+  specLast : Option Obs
+  specNext : Option Obs
+  expAtt : List String
+  expCb : List String
+  specCb : List String
+  phase : Phase
+  nPolls : Nat
+  obsAtt : List String
+  obsCb : List String
+  sawK : Bool
+  /-- caller ids of ResolveNow calls held between pointer load and once-call -/
+  held : List Nat
+  tags : List String
+  /-- first model/implementation disagreement on a poll's streams or callbacks that does not
+      violate the specification; the replay goes on (a later poll may violate it) -/
+  pendingDiff : Option String
+
+def V.init : V :=
+  { w := W.init true, r := RState.init Bytes, rNext := RState.init Bytes, specLast := none, specNext := none,
+    expAtt := [], expCb := [], specCb := [], phase := .idle, nPolls := 0, obsAtt := [], obsCb := [],
+    sawK := false, held := [], tags := [], pendingDiff := none }
+
+def defaultPlan (plans : List Plan) : Plan :=
+  match plans.getLast? with
+  | some p => { a0 := { mode := 'S', cid := p.a0.cid }, a1 := { mode := 'S', cid := p.a0.cid }, n := [0, 0, 0, 0, 0], closeAt := '-' }
+  | none => { a0 := { mode := 'S', cid := 0 }, a1 := { mode := 'S', cid := 0 }, n := [0, 0, 0, 0, 0], closeAt := '-' }
+
+def planAt (plans : List Plan) (i : Nat) : Plan :=
+  match plans[i]? with
+  | some p => p
+  | none => defaultPlan plans
+
+def cnt (p : Plan) (i : Nat) : Nat := match p.n[i]? with | some k => k | none => 0
+
+def iter {α : Type} (f : α → Option α) : Nat → α → Option α
+  | 0, a => some a
+  | k + 1, a => match f a with
+    | some a' => iter f k a'
+    | none => none
+
+/-- the rest of a held call: once test-and-set, channel close if it won -/
+def finishCall (w : W) (i : Nat) : Option W :=
+  match step w (.fire i) with
+  | none => none
+  | some w1 => match step w1 (.closeCh i) with
+    | some w2 => some w2
+    | none => some w1
+
+def finishAll : W → List Nat → Option W
+  | w, [] => some w
+  | w, i :: rest => match finishCall w i with
+    | some w' => finishAll w' rest
+    | none => none
+
+/-- the harness' `doActions(point)`: held calls are started (pointer load only), n whole ResolveNow
+    calls are made, held calls are released, then possibly the Close call -/
+def acts (wh : W × List Nat) (p : Plan) (point : Nat) : Option (W × List Nat) :=
+  let (w, held) := wh
+  if w.closer = .returned then some (w, held) else
+  let pc := Char.ofNat ('A'.toNat + point)
+  match p.n[point]? with
+  | none => none
+  | some k =>
+    let nh := (p.holdAt.filter (· == pc)).length
+    match iter (fun (x : W × List Nat) => (step x.1 (.load x.1.loads)).map (fun w' => (w', x.2 ++ [x.1.loads]))) nh (w, held) with
+    | none => none
+    | some (w1, held1) =>
+      match iter resolveNowAtomic k w1 with
+      | none => none
+      | some w2 =>
+        match (if p.relAt.contains pc then (finishAll w2 held1).map (fun w' => (w', ([] : List Nat))) else some (w2, held1)) with
+        | none => none
+        | some (w3, held3) =>
+          if p.closeAt = pc ∧ w3.closer = .idle then (step w3 .closeCall).map (fun w' => (w', held3)) else some (w3, held3)
+
+def tag (v : V) (t : String) : V := if v.tags.contains t then v else { v with tags := v.tags ++ [t] }
+
+/-- result of one token: continue, or stop with a verdict -/
+abbrev R := Except String V
+
+def diff (why : String) : R := .error s!"DIFF model={why}"
+def viol (why : String) : R := .error s!"VIOL {why}"
+
+def join (l : List String) : String := if l.isEmpty then "-" else ",".intercalate l
+
+def onToken (os : Bool) (tab : List CEntry) (plans : List Plan) (v : V) (t : String) : R :=
+  let plan := planAt plans (v.nPolls - 1)
+  if t = "R" then
+    if v.phase ≠ .idle then diff "poll-start-unexpected" else
+    -- re-arm after a wake-up (two poller steps), if any
+    let w0 := if v.w.ppc = .woken then (step v.w .mkChan).bind (fun w => step w .storePtr) else some v.w
+    let plan := planAt plans v.nPolls
+    match w0 with
+    | none => diff "rearm"
+    | some w0 =>
+      match (acts (w0, v.held) plan 0).bind (fun wh => (step wh.1 .pollStart).map (fun w => (w, wh.2))) |>.bind (fun wh => acts wh plan 1) with
+      | none => diff "poll-start-not-enabled"
+      | some (w1, held1) =>
+        match toAttempt os tab plan.a0, toAttempt os tab plan.a1 with
+        | some e0, some e1 =>
+          let env : Version → Attempt String := fun m => match m with | .v1 => e0 | .v1alpha => e1
+          let (r', cbs, tried) := pollStep (fun b => b) v.r env
+          let isG := plan.a0.mode = 'G' ∨ plan.a1.mode = 'G'
+          let expAtt := if isG then tried.map (fun _ => "g") else tried.map verTok
+          let (sl, scbs) := specPoll v.specLast (outcomeOf env v.r.methodPriority)
+          let v := { v with w := w1, held := held1, rNext := r', specNext := sl, expAtt := expAtt, expCb := cbs.map cbTok,
+                            specCb := scbs.map cbTok, phase := .polling, nPolls := v.nPolls + 1, obsAtt := [], obsCb := [] }
+          let v := if tried.length > 1 then tag v "b=fallback" else v
+          let v := if cnt plan 1 > 0 then tag v "b=resolveNowDuringPoll" else v
+          let v := if cnt plan 0 > 0 then tag v "b=resolveNowBeforePoll" else v
+          .ok v
+        | _, _ => .error "BAD attempt"
+  else if t = "g" ∨ t = "a0" ∨ t = "a1" then
+    if v.phase = .polling then .ok { v with obsAtt := v.obsAtt ++ [t] } else diff "stream-outside-poll"
+  else if t.startsWith "u" ∨ t.startsWith "e" then
+    if v.phase = .polling then .ok { v with obsCb := v.obsCb ++ [t] }
+    else if v.w.closer = .returned then viol "callback-after-Close-returned"
+    else diff "callback-outside-poll"
+  else if t = "S" then
+    if v.phase ≠ .polling then diff "select-unexpected" else
+    -- the specification first
+    let specUpd := v.specCb.filter isUpdateTok
+    let obsUpd := v.obsCb.filter isUpdateTok
+    if specUpd ≠ obsUpd then
+      (if obsUpd.isEmpty then viol s!"update-missing poll={v.nPolls - 1} expected={join specUpd} got={join v.obsCb}"
+       else if specUpd.isEmpty then viol s!"update-without-change poll={v.nPolls - 1} got={join v.obsCb} expected={join v.specCb}"
+       else viol s!"wrong-update poll={v.nPolls - 1} expected={join specUpd} got={join obsUpd}")
+    else if v.obsCb.length > 1 then viol s!"several-callbacks poll={v.nPolls - 1} got={join v.obsCb}"
+    else if v.specCb ≠ v.expCb then .error s!"BAD spec-and-model-disagree spec={join v.specCb} model={join v.expCb}"
+    else
+      let v := if (v.obsCb ≠ v.expCb ∨ v.obsAtt ≠ v.expAtt) ∧ v.pendingDiff.isNone then
+          { v with pendingDiff := some s!"DIFF model=poll={v.nPolls - 1}:streams={join v.expAtt}:callbacks={join v.expCb}:got-streams={join v.obsAtt}:got-callbacks={join v.obsCb}" }
+        else v
+      match (step v.w (.pollEnd (!v.obsCb.isEmpty))).bind (fun w => acts (w, v.held) plan 2) with
+      | none => diff "poll-end-not-enabled"
+      | some (w', held') =>
+        let v := { v with w := w', held := held', r := v.rNext, specLast := v.specNext, phase := .atSelect, sawK := false }
+        let v := if !obsUpd.isEmpty then tag v "b=update" else if v.obsCb.isEmpty then tag v "b=unchanged" else tag v "b=error"
+        let v := if cnt plan 2 > 0 then tag v "b=resolveNowBeforeSelect" else v
+        .ok v
+  else if t = "K" then
+    if v.phase ≠ .atSelect ∨ v.sawK then diff "parked-unexpected" else
+    if v.w.cur ∈ v.w.closed then viol s!"lost-wake-up poll={v.nPolls - 1} poller-parked-although-ResolveNow-completed-on-the-armed-generation"
+    else match acts (v.w, v.held) plan 3 with
+      | none => diff "actions-D"
+      | some (w', held') =>
+        let v := { v with w := w', held := held', sawK := true }
+        let v := if plan.relAt.contains 'D' ∨ plan.holdAt.contains 'D' then tag v "b=splitResolveNow" else v
+        .ok (if cnt plan 3 > 0 then tag v "b=resolveNowWhileParked" else v)
+  else if t = "Z" then
+    if v.phase ≠ .atSelect ∨ !v.sawK then diff "final-close-unexpected" else
+    if v.w.cur ∈ v.w.closed then viol s!"lost-wake-up poll={v.nPolls - 1} poller-still-parked-after-a-ResolveNow-completed-on-the-armed-generation"
+    else match step v.w .closeCall with
+    | none => diff "final-close-twice"
+    | some w' => .ok { v with w := w' }
+  else if t = "!nowake" then
+    if v.w.cur ∈ v.w.closed then viol s!"lost-wake-up poll={v.nPolls - 1} ResolveNow-while-parked-did-not-wake-the-poller"
+    else diff "harness-nowake"
+  else if t = "W" then
+    if v.phase ≠ .atSelect then diff "wake-unexpected" else
+    match step v.w .wake with
+    | none => diff s!"wake-up-without-ResolveNow poll={v.nPolls - 1}"
+    | some w1 =>
+      let v := if v.w.closer = .sending then tag v "b=wakeWinsOverClose" else v
+      match acts (w1, v.held) plan 4 with
+      | none => diff "actions-E"
+      | some (w', held') =>
+        let v := { v with w := w', held := held', phase := .idle }
+        .ok (if cnt plan 4 > 0 then tag v "b=resolveNowInRearmWindow" else v)
+  else if t = "c" then
+    match step v.w .takeDone with
+    | none => diff s!"Close-returned-while-poller-not-at-select-or-not-called"
+    | some w1 =>
+      match step w1 .closeRet with
+      | none => diff "close-ret"
+      | some w2 =>
+        let v := if v.w.cur ∈ v.w.closed then tag v "b=closeWinsOverWake" else v
+        let v := if !v.sawK then tag v "b=closePendingAtSelect" else v
+        .ok { v with w := w2, phase := .closedDone }
+  else if t = "X" then
+    match step v.w .closeDone with
+    | none => diff "exit-unexpected"
+    | some w' => .ok { v with w := w' }
+  else if t = "L" then diff "poller-goroutine-alive-after-Close-returned"
+  else if t.startsWith "!" then diff s!"harness{t}"
+  else .error s!"BAD token {t}"
+
+def replay (os : Bool) (tab : List CEntry) (plans : List Plan) : V → List String → R
+  | v, [] => .ok v
+  | v, t :: ts => match onToken os tab plans v t with
+    | .ok v' => replay os tab plans v' ts
+    | .error e => .error e
+
+/-- the poll-level disagreement recorded before a later (LTS-level) DIFF stopped the replay, if any -/
+def firstPollDiff (os : Bool) (tab : List CEntry) (plans : List Plan) (out : List String) : Option String :=
+  let rec go (v : V) : List String → Option String
+    | [] => v.pendingDiff
+    | t :: ts => match onToken os tab plans v t with
+      | .ok v' => go v' ts
+      | .error _ => v.pendingDiff
+  go V.init out
+
+/-- independent of the replay: no callback token after `c` -/
+def callbackAfterClose : List String → Bool
+  | [] => false
+  | t :: ts => if t = "c" then ts.any (fun x => x.startsWith "u" ∨ x.startsWith "e") else callbackAfterClose ts
+
+def handleHist (inp out : List String) : String :=
+  match inp with
+  | _ :: osT :: _rt :: ctab :: planToks =>
+    if !ctab.startsWith "C=" then "BAD contracts" else
+    match ((ctab.drop 2).toString.splitOn ";").mapM parseContract, planToks.mapM parsePlan with
+    | some tab, some plans =>
+      if plans.isEmpty then "BAD no plans" else
+      if out.any (fun t => t.startsWith "BAD" ∨ t.startsWith "PANIC") then s!"DIFF model=no-panic got={" ".intercalate out}" else
+      let os := osT == "os1"
+      let res := replay os tab plans V.init out
+      if callbackAfterClose out then "VIOL callback-after-Close-returned" else
+      match res with
+      | .error e => if e.startsWith "VIOL" then e else (match firstPollDiff os tab plans out with | some d => d | none => e)
+      | .ok v =>
+        if let some d := v.pendingDiff then d
+        else if v.w.ppc ≠ .exited then "DIFF model=log-incomplete"
+        else
+          let nt := if v.nPolls ≥ 2 then " nt" else ""
+          s!"OK{nt} b=polls{min v.nPolls 9}" ++ String.join (v.tags.map (fun t => " " ++ t))
+    | _, _ => "BAD parse"
+  | _ => "BAD hist line"
+
+/-! ### hash equality -/
+
+def nodupB {α : Type} [BEq α] : List α → Bool
+  | [] => true
+  | x :: xs => !xs.contains x && nodupB xs
+
+def verdictEq (out : String) (modelEq : Bool) (specEq : Option Bool) (br : String) : String :=
+  let m := if modelEq then "eq" else "ne"
+  match specEq with
+  | some s =>
+    let sp := if s then "eq" else "ne"
+    if out ≠ sp then
+      (if out = "eq" then s!"VIOL hash-collision different-contracts-same-fingerprint model={m}"
+       else s!"VIOL hash-differs-for-equal-contracts model={m}")
+    else if out ≠ m then s!"DIFF model={m}"
+    else s!"OK nt b={br}-{m}"
+  | none => if out ≠ m then s!"DIFF model={m}" else s!"OK b={br}-{m}-modelonly"
+
+/-- name is a function of the bytes across both lists (as it is for real descriptors) -/
+def nameFunctional (fs : List File) : Bool :=
+  fs.all (fun f => fs.all (fun g => f.proto != g.proto || f.name == g.name))
+
+def handle : Handler
+  | "hist" :: rest, out => handleHist ("hist" :: rest) out
+  | ["hsvc", a, b], [out] =>
+    match parseHexList a, parseHexList b with
+    | some a, some b =>
+      let spec := if nodupB a && nodupB b then some (sameSet a b) else none
+      verdictEq out (svcPre a == svcPre b) spec "hsvc"
+    | _, _ => "BAD hex"
+  | ["hfile", a, b], [out] =>
+    match parseFileList a, parseFileList b with
+    | some a, some b =>
+      let ok := nodupB (a.map (·.name)) && nodupB (b.map (·.name)) && nameFunctional (a ++ b)
+      let spec := if ok then some (sameSet a b) else none
+      verdictEq out (protoPre a == protoPre b) spec "hfile"
+    | _, _ => "BAD hex"
+  | _, _ => "BAD c15 line"
 
 end GB.C15
